@@ -64,6 +64,7 @@ type opIn struct {
 	R  bool   `json:"r,omitempty"` // reorder deliveries
 	H  bool   `json:"h,omitempty"` // crash: hard (wrappers die first) instead of Close
 	M  int    `json:"m,omitempty"` // live: max delay in ms
+	W  bool   `json:"w,omitempty"` // round: do not wait for the apply pipeline after a pass
 }
 
 type input struct {
@@ -72,6 +73,7 @@ type input struct {
 	Async   bool   `json:"async"`   // det: with the apply pipeline
 	NoPV    bool   `json:"nopv,omitempty"` // raft PreVote off (production: on)
 	NoCQ    bool   `json:"nocq,omitempty"` // raft CheckQuorum off (production: on)
+	Slow    int    `json:"slow,omitempty"` // the state machine takes this many microseconds per call (tasks pile up in the pipeline)
 	Ops     []opIn `json:"ops"`
 }
 
@@ -332,8 +334,15 @@ func (s smPlain) applyLocked(cmds []multiraft.Command, batch bool) [][]byte {
 	return out
 }
 
+func (s smPlain) slow() {
+	if us := s.n.c.in.Slow; us > 0 {
+		time.Sleep(time.Duration(us) * time.Microsecond)
+	}
+}
+
 func (s smPlain) Apply(ctx context.Context, cmd multiraft.Command) ([]byte, error) {
 	n := s.n
+	s.slow()
 	if err := n.gate(true); err != nil {
 		return nil, err
 	}
@@ -343,6 +352,7 @@ func (s smPlain) Apply(ctx context.Context, cmd multiraft.Command) ([]byte, erro
 
 func (s smPlain) ApplyBatch(ctx context.Context, cmds []multiraft.Command) ([][]byte, error) {
 	n := s.n
+	s.slow()
 	if err := n.gate(true); err != nil {
 		return nil, err
 	}
